@@ -105,15 +105,16 @@ def parseFrame (bs : Bytes) : Except PErr (Frame × Bytes) :=
     let masked := n1 / 128 = 1
     let form := if l7 = 126 then 1 else if l7 = 127 then 2 else 0
     let extN := if form = 1 then 2 else if form = 2 then 8 else 0
-    if r.length < extN then .error .incomplete else
-    let len := if form = 0 then l7 else ofBE (r.take extN)
+    let ext := r.take extN
+    if ext.length < extN then .error .incomplete else
+    let len := if form = 0 then l7 else ofBE ext
     let r := r.drop extN
     let keyN := if masked then 4 else 0
-    if r.length < keyN then .error .incomplete else
     let key := r.take keyN
+    if key.length < keyN then .error .incomplete else
     let r := r.drop keyN
-    if r.length < len then .error .incomplete else
     let data := r.take len
+    if data.length < len then .error .incomplete else
     .ok ({ fin := n0 / 128 = 1, rsv1 := n0 / 64 % 2 = 1, rsv2 := n0 / 32 % 2 = 1, rsv3 := n0 / 16 % 2 = 1,
            opcode := n0 % 16, masked := masked, key := key, lenForm := form, len := len,
            payload := if masked then xorMask key 0 data else data }, r.drop len)
